@@ -194,9 +194,6 @@ def case_workers(texts):
     """coqc needs roughly 0.4 GB plus up to 1 GB per MB of case text; never start more evaluators than fit."""
     if not texts: return 1
     per = 0.4 + max(len(t) for t in texts) / 1.0e6 * 1.0
-    # a program that emits more than a thousand outputs in one poll (the "huge bursts" of the rt engine) costs the evaluator
-    # a few GB by itself, whatever the size of its text
-    per += 3.0 * (max(t.count("TEmit") for t in texts) // 2500)
     return max(1, min(NCPU, len(texts), int(mem_available_gb() * 0.7 / per)))
 
 def run_case_files(prop, texts, timeout=1500, stack_unlimited=True):
